@@ -331,7 +331,12 @@ class Cmp:
             for cd in conds:
                 if len(cd) != 3 or cd[0] != var or cd[1] != "&":
                     raise Mismatch(f"line {c['line']}: flag conditional on `{var}` contains `{cd}`")
-                got.append(self.const_value(definer, cd[2], c["line"]))
+                gv = self.const_value(definer, cd[2], c["line"])
+                if gv < 0 and definer.base in wowm.BASIC_INT:
+                    # a negative C enumerator in `x & E`: the variable holds an unsigned value of the flag's width, so only the low
+                    # bits of the (sign-extended) constant can intersect it
+                    gv &= (1 << (8 * wowm.BASIC_INT[definer.base][0])) - 1
+                got.append(gv)
             if sorted(got) != want:
                 raise Mismatch(f"line {c['line']}: arm tests bits {[hex(g) for g in sorted(got)]} of `{var}`, the definition tests {ens} = {[hex(w) for w in want]}")
             b = self.strip(list(body))
